@@ -41,3 +41,16 @@ def notes_of(res):
     """the `!` notes of a summary string, or None"""
     if '!' not in res: return None
     return 'on ONE object: ' + ', '.join(res.split('!')[1:])
+
+
+def used(obj, block, op):
+    """C02 lines `X.enc` / `X.dec`: the object first performs the OPPOSITE operation on the same operand (result and
+    exceptions ignored), then the requested one — a cipher object is a function of (key, block), so whatever the first
+    call caches in or does to the object must not show in the second (cached key schedules reversed in place, spent
+    iterators, flags left behind by a refused call)."""
+    first = obj.dec if op == 'enc' else obj.enc
+    try:
+        first(block())
+    except Exception as e:
+        if type(e).__name__ == '_Timeout': raise
+    return (obj.enc if op == 'enc' else obj.dec)(block())
